@@ -1,5 +1,6 @@
 """C19 — UnionFind: plugin for the check pipeline."""
 LEVEL = "proof"
+RELEASE_TOO = True
 MODEL_FILES = ["Model/UnionFindM.v"]
 THEOREMS = ["C19_refines", "C19_outputs", "C19_equiv_iff_connected",
             "C19_compression_invisible", "C19_err_unchanged", "C19_labeling"]
